@@ -2,7 +2,10 @@
 
 Theorems: Props/C17.lean — on the Lean models of the parsers (C03/C04/C05/C06) the number of loop iterations and the
 size of what is built are bounded by the input length (+1), for every input: a count field can never drive more work
-than there are bytes. Tie / runtime part: every public parse entry point of embit is run in a sacrificial worker
+than there are bytes. Props/C17X.lean — the text parsers: the descriptor / miniscript / taptree recursion ends by itself,
+steps <= 8|text|+22, depth <= |text|+1 (cost companions of Model/Cost.lean; tied below to the real code: a counting
+BytesIO and wrapped read_from's must report exactly the companion's numbers, and the bounds are checked on the real
+counts); base58 quadratic / bech32, mnemonics, shares, Liquid, keys: size and loop bounds. Tie / runtime part: every public parse entry point of embit is run in a sacrificial worker
 (address-space limit, per-call timer, tracemalloc peak) on structure-aware mutants (count and length fields set to
 0xfc, 0xfd.., 2^16, 2^32-1, 2^64-1; truncation; deep nesting; repeated separators) and random data up to 64 KiB;
 outcome must be value/exception within a time and memory budget linear in the input size. Partial: CPython's actual
@@ -18,7 +21,7 @@ import gen
 import gen_psbt
 
 PROP = "C17"
-MODS = ["EmbitModel.Props.C17"]
+MODS = ["EmbitModel.Props.C17", "EmbitModel.Props.C17X"]
 
 T_BASE, T_PER_BYTE = 0.30, 90e-6          # seconds (tracemalloc slows the interpreter ~3x)
 M_BASE, M_PER_BYTE = 1_500_000, 1500      # bytes of traced peak
@@ -313,6 +316,204 @@ def corpus(c):
         w.close()
 
 
+# ---------------------------------------------------------------------------------------------------------------
+# text parsers: the cost companions of Model/Cost.lean against the real code
+
+def desc_literals():
+    lits = set()
+    tdir = os.path.join(REPO, "tests", "tests")
+    for fn in sorted(os.listdir(tdir)):
+        if fn.endswith(".py"):
+            src = open(os.path.join(tdir, fn), errors="replace").read()
+            for m in re.finditer(r"[\"']([^\"'\n]{12,3000})[\"']", src):
+                x = m.group(1)
+                if re.match(r"^(wsh|sh|wpkh|pkh|tr)\(", x) and x.isascii() and not re.search(r"\s", x):
+                    lits.add(x)
+    return sorted(lits)
+
+
+def desc_generated(rng, n):
+    """valid descriptors over fresh keys: every operator family of the parser"""
+    from embit import bip32, ec
+    def pub():
+        while True:
+            try:
+                return ec.PrivateKey(gen.rbytes(rng, 32)).get_public_key().sec().hex()
+            except Exception:
+                pass
+    def xpub():
+        k = bip32.HDKey.from_seed(gen.rbytes(rng, 32))
+        path = rng.choice(["m/84h/0h/0h", "m/48h/1h/0h/2h", "m/0"])
+        o = "[%s/%s]" % (k.my_fingerprint.hex(), path[2:]) if rng.random() < 0.6 else ""
+        return o + k.derive(path).to_public().to_base58() + rng.choice(["/0/*", "/<0;1>/*", "/{0,1}/*", "", "/1/2/*"])
+    def key():
+        return pub() if rng.random() < 0.5 else xpub()
+    def xonly():
+        return pub()[2:]
+    h32 = lambda: gen.rbytes(rng, 32).hex()
+    h20 = lambda: gen.rbytes(rng, 20).hex()
+    T = [lambda: "wpkh(%s)" % key(), lambda: "pkh(%s)" % key(), lambda: "sh(wpkh(%s))" % key(),
+         lambda: "wsh(multi(2,%s,%s,%s))" % (key(), key(), key()), lambda: "sh(sortedmulti(1,%s,%s))" % (key(), key()),
+         lambda: "sh(wsh(sortedmulti(2,%s,%s)))" % (xpub(), xpub()),
+         lambda: "wsh(and_v(v:pk(%s),after(%d)))" % (key(), rng.randrange(1, 500000)),
+         lambda: "wsh(or_d(pk(%s),and_v(v:pkh(%s),older(%d))))" % (key(), key(), rng.randrange(1, 65535)),
+         lambda: "wsh(thresh(2,pk(%s),s:pk(%s),s:pk(%s),sln:older(%d)))" % (key(), key(), key(), rng.randrange(1, 1000)),
+         lambda: "wsh(andor(pk(%s),older(%d),pk(%s)))" % (key(), rng.randrange(1, 1000), key()),
+         lambda: "wsh(and_v(v:pk(%s),sha256(%s)))" % (key(), h32()), lambda: "wsh(and_v(v:pk(%s),hash160(%s)))" % (key(), h20()),
+         lambda: "wsh(or_i(and_v(v:pkh(%s),older(%d)),pk(%s)))" % (key(), rng.randrange(1, 1000), key()),
+         lambda: "tr(%s)" % xonly(), lambda: "tr(%s,pk(%s))" % (xonly(), xonly()),
+         lambda: "tr(%s,{pk(%s),pk(%s)})" % (xonly(), xonly(), xonly()),
+         lambda: "tr(%s,{{pk(%s),multi_a(2,%s,%s)},and_v(v:pk(%s),older(%d))})" % (xonly(), xonly(), xonly(), xonly(), xonly(), rng.randrange(1, 1000)),
+         lambda: "wsh(c:pk_k(%s))" % key(), lambda: "wsh(and_b(pk(%s),a:and_b(pk(%s),a:pk(%s))))" % (key(), key(), key())]
+    return [rng.choice(T)() + rng.choice(["", "", "#00000000"]) for _ in range(n)]
+
+
+def desc_cases(rng, n):
+    lits = desc_literals() + desc_generated(rng, max(12, n // 8))
+    out = list(lits)
+    opens = ["wsh(", "sh(", "and_v(", "or_d(", "thresh(1,", "v:", "a:s:c:", "multi(1,", "{", "pkh(", "andor(", "tr(", "older("]
+    fixed = ["", "wsh(", "wsh(multi(1,", "tr(", "sh(", "sh(wpkh", "wsh(thresh(", "wsh(after(", "wsh(after(1", "tr(A,", "tr(A,{",
+             "tr(A,{{{{", "wsh(and_v(" * 60, "wsh(" + "thresh(1," * 40, "wsh(multi(1" + ",A" * 200, "wsh(pk(" + "9" * 300, "pkh([",
+             "pkh([00000000/1/2h]", "wpkh(xpub/<0;1>/*)", "wpkh(xpub/{0,1}/*", "wsh(sha256(00))", "wsh(:pk(A))", "wsh(a::pk(A))"]
+    out += fixed
+    while len(out) < n and lits:
+        d = rng.choice(lits)
+        r = rng.random()
+        if r < 0.35:
+            out.append(d[:rng.randrange(len(d))])
+        elif r < 0.6:
+            p = rng.randrange(len(d))
+            out.append(d[:p] + rng.choice("(),{}/<>[]*h:1a#;'") + d[p + 1:])
+        elif r < 0.8:
+            p = rng.randrange(len(d))
+            out.append(d[:p] + rng.choice([",", ")", "(", "{", "}", "/", "1"]) * rng.randrange(1, 5) + d[p:])
+        elif r < 0.9:
+            k = rng.choice([1, 5, 40, 150])
+            out.append((rng.choice(opens) * k + d + ")" * (k if rng.random() < 0.5 else 0))[:3000])
+        else:
+            out.append("".join(rng.choice("abcdhkprstuvw_0123456789()[],/*#:{}<>;") for _ in range(rng.choice([1, 8, 60]))))
+    return out[:max(n, len(fixed) + len(lits))]
+
+
+class _Counting:
+    """embit's descriptor parser with a counting stream and wrapped recursive readers"""
+
+    def __enter__(self):
+        import io
+        from embit.descriptor import miniscript as M, taptree as T
+        self.st = st = {"calls": 0, "depth": 0, "max": 0}
+
+        class CS(io.BytesIO):
+            n = 0
+
+            def read(self, *a):
+                self.n += 1
+                return super().read(*a)
+
+            def seek(self, *a):
+                self.n += 1
+                return super().seek(*a)
+        self.CS = CS
+        self.saved = []
+        for cls in (M.Miniscript, T.TapTree):
+            orig = cls.__dict__["read_from"]
+            self.saved.append((cls, orig))
+            f = orig.__func__
+
+            def rf(k, s, *a, _f=f, **kw):
+                st["calls"] += 1
+                st["depth"] += 1
+                st["max"] = max(st["max"], st["depth"])
+                try:
+                    return _f(k, s, *a, **kw)
+                finally:
+                    st["depth"] -= 1
+            cls.read_from = classmethod(rf)
+        return self
+
+    def __exit__(self, *a):
+        for cls, orig in self.saved:
+            cls.read_from = orig
+
+    def count(self, text):
+        """(stream calls, read_from calls, depth, accepted) of Descriptor.from_string(text); None: RecursionError"""
+        from embit.descriptor import Descriptor
+        s = self.CS(text.encode())
+        self.st.update(calls=0, depth=0, max=0)
+        ok = True
+        try:
+            Descriptor.read_from(s)
+            left = s.read()
+            if len(left) > 0 and not left.startswith(b"#"):
+                ok = False
+        except RecursionError:
+            return None
+        except Exception:
+            ok = False
+        return s.n, self.st["calls"], self.st["max"], ok
+
+
+def text_cost(c, n):
+    import signal
+    from embit import ec, base58
+    # the hypothesis of the termination theorems on the real code: the key decoder refuses the empty text
+    for what, f in (("PrivateKey.from_wif('')", lambda: ec.PrivateKey.from_wif("")),):
+        try:
+            f()
+            c.fail("%s returned a value: the argument loop of multi(...) relies on it raising" % what, {"op": "c17.nokey"})
+        except Exception:
+            pass
+    def on_alarm(signum, frame):
+        raise TimeoutError()
+    old = signal.signal(signal.SIGALRM, on_alarm)
+    try:
+        with _Counting() as k:
+            for text in desc_cases(c.rng, n):
+                signal.setitimer(signal.ITIMER_REAL, 20)
+                try:
+                    r = k.count(text)
+                except TimeoutError:
+                    c.fail("Descriptor.from_string did not end within 20 s on %d characters" % len(text), {"op": "c17.desc", "text": text})
+                    continue
+                finally:
+                    signal.setitimer(signal.ITIMER_REAL, 0)
+                if r is None:
+                    c.tally("cost.desc:recursion-limit")
+                    continue
+                L = len(text)
+                c.count(("c17.desc", text), nontrivial=True)
+                c.tally("cost.desc:" + ("accepted" if r[3] else "rejected"))
+                rec = {"op": "c17.desc", "text": text, "size": L, "stream_calls": r[0], "read_from_calls": r[1], "depth": r[2]}
+                # the proved bounds, on the counts of the real code
+                if r[0] + r[1] > 8 * L + 22:
+                    c.fail("descriptor parser: %d stream calls + %d read_from calls on %d characters (bound 8n+22)" % (r[0], r[1], L), rec)
+                if r[2] > L + 1:
+                    c.fail("descriptor parser: recursion depth %d on %d characters" % (r[2], L), rec)
+                # exact agreement with the cost companions; CPython's BytesIO clamps a relative seek before the start
+                # of the stream to 0 where the model (C12) lets it raise: the texts "tr(" and "sh(" (rejected by both)
+                if text in ("tr(", "sh("):
+                    continue
+                c.expect("c17.desc %s" % hx(text.encode()), "ok %d %d %d %d" % (r[0], r[1], r[2], int(r[3])), rec, proven=False)
+    finally:
+        signal.signal(signal.SIGALRM, old)
+    # base58: result size (the step count is not observable); Model.Base58.decode is C11's, proved equal to the spec
+    b58 = "123456789ABCDEFGHJKLMNPQRSTUVWXYZabcdefghijkmnopqrstuvwxyz"
+    for i in range(max(20, n // 10)):
+        k = c.rng.choice([0, 1, 2, 5, 30, 52, 111, 300])
+        t = "".join(c.rng.choice(b58 if c.rng.random() < 0.95 else "0OIl+") for _ in range(k))
+        if c.rng.random() < 0.3:
+            t = "1" * c.rng.randrange(1, 6) + t
+        try:
+            out = str(len(base58.decode(t)))
+            if int(out) > len(t):
+                c.fail("base58.decode returned %s bytes for %d characters" % (out, len(t)), {"op": "c17.b58", "text": t})
+        except Exception:
+            out = "none"
+        c.count(("c17.b58", t), nontrivial=True)
+        c.expect("c17.b58 %s" % hx(t.encode()), "ok * %s" % out, {"op": "c17.b58", "text": t}, proven=False,
+                 canon=lambda o: " ".join(["ok", "*"] + o.split(" ")[2:]) if o.startswith("ok ") else o)
+
+
 def run(tier, seed):
     c = Check(PROP, MODS, tier, seed)
     c.rule = ("every public parse entry point (36: transactions, scripts, witnesses, PSBT/PSET in all modes, streaming views walked "
@@ -325,12 +526,21 @@ def run(tier, seed):
     c.build_and_audit()
     corpus(c)
     explore(c, 8 if tier == "quick" else 120)
+    text_cost(c, 400 if tier == "quick" else 4000)
     return c.finish(search=lambda cc: explore(cc, 40))
 
 
 def replay(path):
     r = json.load(open(path))
     print(json.dumps({k: (v if len(str(v)) < 600 else str(v)[:600]) for k, v in r.items()}, indent=1))
+    t = r.get("text") or (r.get("info") or {}).get("text")
+    if t is not None and str(r.get("op", "")).startswith("c17."):
+        from core import run_driver
+        if r["op"] == "c17.desc":
+            with _Counting() as k:
+                print("now (embit: stream calls, read_from calls, depth, accepted):", k.count(t))
+        print("now (model):", run_driver(["%s %s" % (r["op"], hx(t.encode()))]))
+        return 0
     if r.get("data"):
         w = Worker()
         print("now:", w.call(r["op"], bytes.fromhex(r["data"]), r["op"] in TEXT))
